@@ -101,9 +101,9 @@ theorem C03_take_member_of_merge {α : Type} (max n j : Nat) :
     ∀ s, SReach (plugOp j (Take.machine α max) (Merge.machine α n true)) s → SafeFor 3 s :=
   fun s hs => safeFor_of_basicSafe _ s hs (LateMember.plugOp_take_merge_basicSafe max n j s hs) 3 (by decide)
 
-theorem C03_relay_member_of_merge {σ α : Type} (k : Relay.Kind σ α α) (hk : k.slotted = false → ∀ s a, (k.xfer s a).2 ≠ none) (n j : Nat) :
-    ∀ s, SReach (plugOp j (Relay.machine k) (Merge.machine α n true)) s → SafeFor 3 s :=
-  fun s hs => safeFor_of_basicSafe _ s hs (LateMember.plugOp_relay_merge_basicSafe k hk n j s hs) 3 (by decide)
+theorem C03_relay_member_of_merge {σ α : Type} (kd : Relay.Kind σ α α) (hk : kd.slotted = false → ∀ s a, (kd.xfer s a).2 ≠ none) (n j : Nat) :
+    ∀ s, SReach (plugOp j (Relay.machine kd) (Merge.machine α n true)) s → SafeFor 3 s :=
+  fun s hs => safeFor_of_basicSafe _ s hs (LateMember.plugOp_relay_merge_basicSafe kd hk n j s hs) 3 (by decide)
 
 
 /-! ## What the monitor verdict means, in terms of the trace alone
@@ -187,9 +187,9 @@ theorem C03_take_member_of_merge_readable {α : Type} (max n j : Nat) :
     ∀ s, SReach (plugOp j (Take.machine α max) (Merge.machine α n true)) s → ∀ k, DisposalRespected k s.tr :=
   fun s hs k => (readable_of_noViols hs (LateMember.plugOp_take_merge_basicSafe max n j s hs).1 k).2.2
 
-theorem C03_relay_member_of_merge_readable {σ α : Type} (k : Relay.Kind σ α α) (hk : k.slotted = false → ∀ s a, (k.xfer s a).2 ≠ none) (n j : Nat) :
-    ∀ s, SReach (plugOp j (Relay.machine k) (Merge.machine α n true)) s → ∀ k, DisposalRespected k s.tr :=
-  fun s hs k => (readable_of_noViols hs (LateMember.plugOp_relay_merge_basicSafe k hk n j s hs).1 k).2.2
+theorem C03_relay_member_of_merge_readable {σ α : Type} (kd : Relay.Kind σ α α) (hk : kd.slotted = false → ∀ s a, (kd.xfer s a).2 ≠ none) (n j : Nat) :
+    ∀ s, SReach (plugOp j (Relay.machine kd) (Merge.machine α n true)) s → ∀ k, DisposalRespected k s.tr :=
+  fun s hs k => (readable_of_noViols hs (LateMember.plugOp_relay_merge_basicSafe kd hk n j s hs).1 k).2.2
 
 /-- the oracle that judges traces recorded from the real crate IS the monitor of these theorems: on every model execution the
 machine-free monitor `monRun` (Mon.lean), folded over the boundary trace alone, computes exactly the ghost carried by the configuration
